@@ -212,13 +212,15 @@ func (l *Link) readOnce(p []byte, ctxErr func() error) (int, error, bool) {
 	defer l.mu.Unlock()
 	defer l.refresh()
 	l.Reads++
-	if l.abort != nil {
-		return 0, l.abort, false
-	}
 	if ctxErr != nil {
+		// a finished context wins over whatever else tore the stream down:
+		// net/http's bodies report the context's error once it is done
 		if err := ctxErr(); err != nil {
 			return 0, err, false
 		}
+	}
+	if l.abort != nil {
+		return 0, l.abort, false
 	}
 	lim := l.limit()
 	n := lim - l.rd
